@@ -339,9 +339,25 @@ def ev(e, env):
         if isinstance(v_, (bytes, bytearray)):
             return bytes(v_)
         return bytes(bytearray(list(v_)))
+    if isinstance(e, ast.Call) and not e.keywords and isinstance(e.func, ast.Name) and env.get("__stmts__") \
+            and e.func.id in ("iter", "enumerate") and len(e.args) == 1:
+        # whole-function interpretation: iterators are the interpreter's own stateful iterators
+        v_ = ev(e.args[0], env)
+        return iter(v_) if e.func.id == "iter" else enumerate(v_)
+    if isinstance(e, ast.Call) and not e.keywords and isinstance(e.func, ast.Name) and env.get("__stmts__") \
+            and e.func.id == "next" and len(e.args) == 1:
+        it_ = ev(e.args[0], env)
+        if hasattr(it_, "__next__"):
+            try:
+                return next(it_)
+            except StopIteration:
+                raise Unknown("next() on an exhausted iterator")
     if isinstance(e, ast.Call) and not e.keywords and isinstance(e.func, ast.Name) and e.func.id == "zip" \
             and env.get("__bytes__"):
-        return tuple(zip(*[ev(a, env) for a in e.args]))
+        args_ = [ev(a, env) for a in e.args]
+        if any(hasattr(a, "__next__") for a in args_):
+            return list(zip(*args_))
+        return tuple(zip(*args_))
     if isinstance(e, ast.Call) and isinstance(e.func, ast.Name) and e.func.id == "isinstance" and len(e.args) == 2 \
             and not e.keywords and env.get("__exc__") is not None:
         inst = ev(e.args[0], env)
@@ -611,6 +627,28 @@ def exec_block(stmts, env, stop=None):
                         break
                     except _Continue:
                         continue
+                continue
+            if isinstance(st, ast.Try) and not st.finalbody:
+                try:
+                    if exec_block(st.body, env, stop):
+                        return True
+                except Raised as r_:
+                    handled = False
+                    for h in st.handlers:
+                        names_ = [] if h.type is None else [_norm(x) for x in (h.type.elts if isinstance(h.type, ast.Tuple) else [h.type])]
+                        cls_ = r_.what.split("(")[0]
+                        exc_ = env.get("__exc__")
+                        if h.type is None or any(cls_ == nm_ or nm_ in ("Exception", "BaseException") or (
+                                exc_ is not None and exc_.is_sub(cls_, nm_)) for nm_ in names_):
+                            if exec_block(h.body, env, stop):
+                                return True
+                            handled = True
+                            break
+                    if not handled:
+                        raise
+                else:
+                    if st.orelse and exec_block(st.orelse, env, stop):
+                        return True
                 continue
             if isinstance(st, ast.Return):
                 raise Returned(None if st.value is None else ev(st.value, env))
